@@ -228,11 +228,17 @@ def jhash(v):
 
 
 # ====================================================================== generators
+def bin_bounds(clen, B):
+    """bin boundaries blacklisted_binning produces for a contig without blacklist (only used to bias the generator)"""
+    total = max(1, -(-clen // B))
+    local = max(1, clen // total)
+    return sorted(set(list(range(0, clen, local)) + [clen]))
+
+
 def gen_fragment(rng, lib, cname, clen, B, L, near_umis, big=False):
     """one fragment with extent <= L (unless big), biased to bin / fetch-window boundaries"""
     umis = UMIS_NEAR if near_umis else UMIS_FAR
-    nb = max(1, clen // B)
-    b = rng.randint(0, nb) * B
+    b = rng.choice(bin_bounds(clen, B))
     site = rng.choice([b - 1, b, b + 1, b - L, b - L + 1, b + L - 1, b + L, b - 4, b + 3, rng.randint(0, clen - 1),
                        b - rng.randint(0, L), b + rng.randint(0, L)])
     ext = L if not big else 3 * L
@@ -389,8 +395,10 @@ class Prop(fw.PropBase):
         return out
 
     def lib_cases(self):
-        """(stream, lib, runs, B, L).  main: D8-safe contig layouts, contig lengths multiples of the bin size,
-        L <= bin; exposed: the rest (reported, enforced only where the model's precondition holds)"""
+        """main: D8-safe contig layouts, any contig length (also with a remainder bin), margins from exactly one fragment
+        length up to more than the bin; exposed: outside the property / open defect of another property (reported,
+        enforced only where the model's precondition holds).  Blacklists cannot be passed end to end:
+        tag_multiome_multi_processing raises NotImplementedError for blacklist_path (the blacklist-aware tiling is C17)."""
         rng = self.rng
         quick = self.tier == 'quick'
         cases = []
@@ -399,12 +407,14 @@ class Prop(fw.PropBase):
             B = rng.choice([500, 1000, 2000])
             L = rng.choice([50, 100, 200, B // 2])
             ncont = rng.randint(2, 3)
-            contigs = [['chr%d' % (i + 1), B * rng.randint(1, 4)] for i in range(ncont)]
+            # contig lengths: multiples of the bin size and lengths with a remainder bin
+            contigs = [['chr%d' % (i + 1), B * rng.randint(1, 4) + (rng.randint(1, B - 1) if rng.random() < 0.4 else 0)] for i in range(ncont)]
             unm = rng.choice([0, 0, 2, 3])
             lib = gen_library(rng, B, L, contigs, rng.randint(8, 26), unm, near_umis=rng.random() < 0.3)
             runs = []
             for _ in range(2 if quick else 3):
-                runs.append({'mode': 'tiled', 'bp_per_segment': B, 'fragment_size': rng.choice([L, L, L + 17, 2 * L if 2 * L <= B else L]),
+                # margins: exactly L, a bit more, twice L, or larger than the bin itself
+                runs.append({'mode': 'tiled', 'bp_per_segment': B, 'fragment_size': rng.choice([L, L, L + 17, 2 * L, B + 100]),
                              'bp_per_job': rng.choice([1, B, 2 * B, 3 * B + 1, 10 ** 6]), 'use_pool': False, 'n_threads': 1})
             runs.append({'mode': 'tiled', 'bp_per_segment': B, 'fragment_size': L, 'bp_per_job': rng.choice([B, 2 * B]),
                          'use_pool': True, 'n_threads': rng.randint(1, 4)})
@@ -424,21 +434,14 @@ class Prop(fw.PropBase):
                     {'mode': 'tiled', 'bp_per_segment': B, 'fragment_size': L, 'bp_per_job': rng.choice([B, 3 * B]),
                      'use_pool': rng.random() < 0.5, 'n_threads': 2}]
             cases.append({'stream': 'main', 'lib': lib, 'runs': runs, 'B': B})
-        # exposed stream
+        # exposed stream: inputs outside the property (fragments longer than the margin) and layouts that hit the open
+        # defect D8 of the contig-per-process job list (C05); enforced only where the precondition of C08_equiv holds
         for k in range(4 if quick else 20):
             B = rng.choice([500, 1000])
             L = rng.choice([100, 200])
-            kind = ['remainder', 'bigmargin', 'longfrag', 'd8'][k % 4]
-            if kind == 'remainder':      # D21: contig length not a multiple of the bin size
-                contigs = [['chr1', B * 2 + rng.randint(1, B - 1)], ['chr2', B * 3]]
-                lib = gen_library(rng, B, L, contigs, 16, 0)
-                runs = [{'mode': 'tiled', 'bp_per_segment': B, 'fragment_size': L, 'bp_per_job': B, 'use_pool': False, 'n_threads': 1}]
-            elif kind == 'bigmargin':    # D22: fragment_size > bin
-                contigs = [['chr1', B * 3], ['chr2', B * 2]]
-                lib = gen_library(rng, B, L, contigs, 16, 2)
-                runs = [{'mode': 'tiled', 'bp_per_segment': B, 'fragment_size': B + 100, 'bp_per_job': B, 'use_pool': False, 'n_threads': 1}]
-            elif kind == 'longfrag':     # fragments longer than the margin: outside the property
-                contigs = [['chr1', B * 3], ['chr2', B * 2]]
+            kind = ['longfrag', 'd8'][k % 2]
+            if kind == 'longfrag':
+                contigs = [['chr1', B * 3], ['chr2', B * 2 + 77]]
                 lib = gen_library(rng, B, L, contigs, 16, 0, big_frac=0.5)
                 runs = [{'mode': 'tiled', 'bp_per_segment': B, 'fragment_size': L, 'bp_per_job': B, 'use_pool': False, 'n_threads': 1}]
             else:                        # D8: small contigs plus unmapped reads / a lone small contig
@@ -532,7 +535,9 @@ class Prop(fw.PropBase):
                 continue
             fr = truth_fragments(case['lib'])
             hist['frags'] += len(fr)
-            hist['frags_near_boundary'] += sum(1 for f in fr if f['site'] is not None and min(f['site'] % case['B'], case['B'] - f['site'] % case['B']) <= 4)
+            lens = dict((contig_id(case['lib'], c), l) for c, l in case['lib']['contigs'])
+            hist['frags_near_boundary'] += sum(1 for f in fr if f['site'] is not None and f['contig'] >= 0 and
+                                               min(abs(f['site'] - b) for b in bin_bounds(lens[f['contig']], case['B'])) <= 4)
             for run, rr in zip(case['runs'], r['runs']):
                 n_runs += 1
                 ev = self.eval_run(case, r, run, rr)
@@ -553,8 +558,10 @@ class Prop(fw.PropBase):
                     else:
                         st['enforced_ok'] += 1
                         key = jhash([case['lib']['contigs'], [[f['contig'], f['start'], f['len'], f['rev']] for f in case['lib']['frags']], rr.get('jobs')])
-                        straddle = any(f['site'] is not None and len(f['reads']) == 2 and
-                                       (min(x[1] for x in f['reads']) // case['B']) != ((max(x[2] for x in f['reads']) - 1) // case['B']) for f in fr)
+                        lens = dict((contig_id(case['lib'], c), l) for c, l in case['lib']['contigs'])
+                        straddle = any(f['site'] is not None and len(f['reads']) == 2 and f['contig'] >= 0 and
+                                       any(min(x[1] for x in f['reads']) < b < max(x[2] for x in f['reads'])
+                                           for b in bin_bounds(lens[f['contig']], case['B'])[1:-1]) for f in fr)
                         if straddle and ntask >= 3:
                             nontriv.add(key)
                 elif case['stream'] == 'main':
@@ -607,7 +614,7 @@ class Prop(fw.PropBase):
                 pre_model = bool(b[0]) and bool(b[1])
                 pre_py = py_plans_ok(ev['L'], ev['plans']) and py_frags_ok(ev['L'], ev['plans'], ev['frags'])
                 if pre_model != pre_py or b[2] != [ev['counts'][f['id']] for f in ev['frags']]:
-                    loop_dis.append({'kind': 'python transcription of the hypotheses disagrees with the model (harness)', 'model': b,
+                    loop_dis.append({'kind': 'owner count / precondition computed with the REGENERATED gate differs from the specification (site on the task contig in [start,end)); harness bug only if the loop cases agree', 'model': b,
                                      'python': [pre_py, [ev['counts'][f['id']] for f in ev['frags']]]})
                 if rr.get('tasklog') is not None and ev['pre']:
                     flat_model = [sorted(x) for job in a for x in job]
@@ -689,7 +696,9 @@ class Prop(fw.PropBase):
                 size = len(case['lib']['frags'])
                 if bestl is None or size < bestl[0]:
                     mode = 'region-tiled' if run['mode'] == 'tiled' else 'contig-per-process'
-                    what = ('%s run %r: %s' % (mode, run, '; '.join(ev['problems'][:3]) if ev['pre'] else 'precondition fails: ' + ev['why']))
+                    what = ('%s run %r: %s' % (mode, run, '; '.join(ev['problems'][:3]) if ev['pre'] else
+                                               'the job list the implementation built is not acceptable: ' + ev['why'] + ' -- job list %r' % (rr.get('jobs'),) +
+                                               ('; consequence: ' + '; '.join(ev['problems'][:3]) if ev['problems'] else '')))
                     kind = 'lost' if any('by no job' in p for p in ev['problems']) else 'dup' if any('tasks' in p or 'twice' in p for p in ev['problems']) \
                         else 'differs' if ev['problems'] else 'precondition'
                     bestl = (size, {'key': 'e2e:%s:%s' % (run['mode'], kind), 'what': what,
